@@ -309,13 +309,13 @@ class _Inliner:
                     subst[prm['id']] = a
                     continue
                 if t.startswith('const'):
-                    prefix.append({'k': 'decls', 'ln': call.get('ln'), 'd': [{'k': 'var', 'id': idmap[prm['id']], 'name': prm.get('name', ''), 'type': t, 'init': a,
+                    prefix.append({'k': 'decls', 'ln': call.get('ln'), 'd': [{'k': 'var', 'id': idmap[prm['id']], 'name': prm.get('name', '') + tag, 'type': t, 'init': a,
                                                                                'ln': call.get('ln'), 'col': call.get('col')}]})
                     continue
                 return None
             if pure_only and not pure(a):
                 return None
-            prefix.append({'k': 'decls', 'ln': call.get('ln'), 'd': [{'k': 'var', 'id': idmap[prm['id']], 'name': prm.get('name', ''), 'type': t, 'init': a,
+            prefix.append({'k': 'decls', 'ln': call.get('ln'), 'd': [{'k': 'var', 'id': idmap[prm['id']], 'name': prm.get('name', '') + tag, 'type': t, 'init': a,
                                                                        'ln': call.get('ln'), 'col': call.get('col'), 'from_param': True}]})
         body = h.body['body']
         ret = None
@@ -895,6 +895,12 @@ def normalise(prog, f, depth=3, keep=(), only=None):
         nb = dict(f.body, body=inl.stmts(f.body['body'], frozenset([f.key]), depth))
         if inl.count:
             if inl.renames:
+                # chains (a helper returning what an inner helper returned): follow to the end
+                for k_ in list(inl.renames):
+                    seen_ = set()
+                    while inl.renames[k_] in inl.renames and inl.renames[k_] not in seen_:
+                        seen_.add(inl.renames[k_])
+                        inl.renames[k_] = inl.renames[inl.renames[k_]]
                 _PARAM_IDS[0] = frozenset(p_['id'] for p_ in f.params if p_.get('id'))
                 nb = _rename_refs(nb, inl.renames, _names_of(nb, f.params))
             nb, ns = _sroa(prog, nb)
